@@ -210,3 +210,32 @@ Theorem C13_compare_current : forall transforms one two,
 Proof. exact mnemonic_compare_pin. Qed.
 Print Assumptions C13_useful_current.
 Print Assumptions C13_compare_current.
+
+(* ---- the renumbering and the list-changing methods are the Python's -----------------------------------
+   assign_suffixes, append, insert and set_item (str key) equal SectionItems.assign_duplicate_suffixes (called
+   with a mnemonic), append, insert and set_item, re-translated on every run from /repo as functions from the
+   item list to the item list (translators/funcs.py -> Gen/Funcs.v; MutatorTr): which items are renumbered,
+   with which suffix, in which order, and that every insertion / replacement re-numbers the group of the new
+   item.  pitem_of shows a model item as the object the translated code reads; ":%d" % n is read as
+   Items.nat_dec (int_dec).  Not covered: assign_duplicate_suffixes(None) (iterates a set), int keys. *)
+Require Import FuncsPinSection FuncsPinMutators.
+Theorem C13_assign_current : forall s t,
+  py_assign_duplicate_suffixes int_dec (transforms s) (List.map pitem_of (items s)) t
+  = Some (List.map pitem_of (items (assign_suffixes t s))).
+Proof. exact assign_pin. Qed.
+Theorem C13_append_current : forall s it,
+  py_section_append int_dec (transforms s) (List.map pitem_of (items s)) (pitem_of it)
+  = Some (List.map pitem_of (items (append s it))).
+Proof. exact append_pin. Qed.
+Theorem C13_insert_current : forall s i it,
+  py_section_insert int_dec (transforms s) (List.map pitem_of (items s)) i (pitem_of it)
+  = Some (List.map pitem_of (items (insert s i it))).
+Proof. exact insert_pin. Qed.
+Theorem C13_set_item_current : forall s m it,
+  py_section_set_item int_dec (transforms s) (List.map pitem_of (items s)) m (pitem_of it)
+  = ires_items (set_item s (KStr m) it).
+Proof. exact set_item_pin. Qed.
+Print Assumptions C13_assign_current.
+Print Assumptions C13_append_current.
+Print Assumptions C13_insert_current.
+Print Assumptions C13_set_item_current.
